@@ -968,8 +968,10 @@ class Engine:
             for gname, gv in vals.items():
                 s_.env[gname] = self.new_obj(s_, gv) if isinstance(gv, Arr) else gv
         if gspec:
-            set_ghost(st, gspec['init'](L, View(self, st, old=self.A, ghost=self.ghost)))
-            rebound = list(rebound) + [g_ for g_ in st.env if g_.startswith('ghost_') and g_ not in rebound]
+            g0_ = gspec['init'](L, View(self, st, old=self.A, ghost=self.ghost))
+            set_ghost(st, g0_)
+            # only this loop's own ghost variables change in it (ghost state of earlier loops is kept as it is)
+            rebound = list(rebound) + [g_ for g_ in g0_ if g_ not in rebound]
         for name, g in all_inv(st):
             self.emit('loop%d.init' % k, st, g, clause=name)
         h = st.copy()
